@@ -34,6 +34,18 @@
 #define omp_get_max_threads() 1
 #endif
 
+#ifdef PGM_INDEX_VERIF
+namespace pgm::verif { struct Access; }
+#endif
+
+#ifdef PGM_INDEX_VERIF
+#ifndef PGM_INDEX_VERIF_ADD_POINT
+#define PGM_INDEX_VERIF_ADD_POINT(x, y)
+#endif
+#else
+#define PGM_INDEX_VERIF_ADD_POINT(x, y)
+#endif
+
 namespace pgm::internal {
 
 template<typename T>
@@ -44,6 +56,10 @@ using LargeSigned = typename std::conditional_t<std::is_floating_point_v<T>,
 template<typename X, typename Y>
 class OptimalPiecewiseLinearModel {
 private:
+#ifdef PGM_INDEX_VERIF
+    friend struct ::pgm::verif::Access;
+#endif
+
     using SX = LargeSigned<X>;
     using SY = LargeSigned<Y>;
 
@@ -203,6 +219,10 @@ public:
 template<typename X, typename Y>
 class OptimalPiecewiseLinearModel<X, Y>::CanonicalSegment {
     friend class OptimalPiecewiseLinearModel;
+#ifdef PGM_INDEX_VERIF
+    friend struct ::pgm::verif::Access;
+#endif
+
 
     Point rectangle[4];
     X first;
@@ -278,6 +298,7 @@ size_t make_segmentation(size_t n, size_t start, size_t end, size_t epsilon, Fin
     size_t c = 0;
     OptimalPiecewiseLinearModel<K, size_t> opt(epsilon);
     auto add_point = [&](K x, size_t y) {
+        PGM_INDEX_VERIF_ADD_POINT(x, y);
         if (!opt.add_point(x, y)) {
             out(opt.get_segment());
             opt.add_point(x, y);
